@@ -36,14 +36,18 @@ THEOREMS = [
     "MCHap.C02.mh_db",
 ]
 RULE = ("cases: random known-haplotype sets (1..6 haplotypes over 1..4 SNVs, shared and unique SNV patterns), ploidy 1..6, "
-        "frequencies {None, flat array, skewed, with zero entries}, inbreeding {0,.01,.25,.5,.9}, reads with gaps/counts; every allele "
-        "position of a current genotype of positive prior. Non-trivial: >= 2 haplotypes and (a repeated allele in the genotype or "
-        "non-flat frequencies). Distinct by request line.")
+        "frequencies {None, flat array, skewed, with zero entries, tiny (1e-3..1e-12)}, inbreeding {0,.01,.25,.5,.9}, reads with gaps/counts "
+        "(encoded / free / hard 0-1 calls); pooled samples (ploidy 16..40 over 5..8 haplotypes); panels of 40..300 haplotypes over 5..8 SNVs at "
+        "ploidy 2..4; genotype arrays int64 / int32 / int16 and greedy_caller's own int32 output as the current state; every allele "
+        "position of a current genotype of positive posterior. The same vectors with the dict cache in use (ploidy up to 12, up to 280 "
+        "haplotypes); compound_step as plain Python and compiled (seed_numba) with the cache shared by consecutive steps; mcmc_sampler traces. "
+        "Non-trivial: >= 2 haplotypes and (a repeated allele in the genotype or non-flat frequencies). Distinct by request line.")
 
 INBREEDING = [0.0, 0.01, 0.25, 0.5, 0.9]
 
 
-def gen_call_instance(r, max_haps=6, pooled=False, panel=False, styles=("encoded", "encoded", "free", "hard"), max_reads=6, max_count=3):
+def gen_call_instance(r, max_haps=6, pooled=False, panel=False, styles=("encoded", "encoded", "free", "hard"), max_reads=6, max_count=3,
+                      ploidy=None, n_haps=None):
     """pooled: 16-40 copies spread over 5-8 haplotypes; panel: 40-300 known haplotypes over 5-8 SNVs at ploidy 2-4"""
     n_base = r.randint(1, 4) if not pooled else r.randint(3, 4)
     if panel:
@@ -51,9 +55,12 @@ def gen_call_instance(r, max_haps=6, pooled=False, panel=False, styles=("encoded
     n_alleles = G.gen_n_alleles(r, n_base)
     if panel:
         n_alleles = [r.choice([2, 3, 4]) for _ in range(n_base)]       # >= 2^5 .. 4^8 possible haplotypes
+    want = n_haps
     n_haps = r.randint(1, max_haps) if not pooled else r.randint(5, 8)
     if panel:
         n_haps = min(r.choice([40, 70, 130, 257, 300, 300]), int(np.prod(n_alleles)) - 1)
+    if want is not None:
+        n_haps = min(want, int(np.prod(n_alleles)))
     seen, haps = set(), []
     for _ in range(n_haps * 4):
         h = tuple(G.gen_haplotype(r, n_alleles))
@@ -62,9 +69,10 @@ def gen_call_instance(r, max_haps=6, pooled=False, panel=False, styles=("encoded
         if len(haps) == n_haps:
             break
     n = len(haps)
-    ploidy = r.choice([1, 2, 2, 3, 4, 4, 6]) if not pooled else r.choice([16, 21, 24, 30, 32, 40])
+    ploidy_ = r.choice([1, 2, 2, 3, 4, 4, 6]) if not pooled else r.choice([16, 21, 24, 30, 32, 40])
     if panel:
-        ploidy = r.choice([2, 3, 4])
+        ploidy_ = r.choice([2, 3, 4])
+    ploidy = ploidy_ if ploidy is None else ploidy
     kind, freqs = gen_freqs(r, n)
     F = r.choice(INBREEDING) if not pooled else r.choice([0.0, 0.0, 0.1])
     allowed = [a for a in range(n) if freqs is None or freqs[a] > 0]
@@ -104,7 +112,9 @@ def run(tier, replay=None):
 
     chk = C.Check(PROP, tier, MODULE, THEOREMS, RULE, assumptions=[
         "float64 log-space evaluation is compared at rel 1e-9, not proved",
-        "the current genotype has positive prior probability (states the sampler can reach)",
+        "the current genotype has positive posterior probability (states the sampler can reach); vectors from zero-posterior states are counted, not compared",
+        "F = 0 with explicit frequencies: the code multiplies the frequencies of a genotype in float64; products below 1e-300 underflow "
+        "(numerical range of the implementation: counted, not compared)",
         "irreducibility / convergence is not claimed; the theorems are conditional-exactness, reversibility and detailed balance",
     ])
     chk.prove()
@@ -272,7 +282,7 @@ def run(tier, replay=None):
         F = r.choice([0.0, 0.1, 0.5]); kind, freqs = gen_freqs(r, n)
         allowed = [a for a in range(n) if freqs is None or freqs[a] > 0]
         cache = NDict.empty(types.int64, types.float64); cache[-1] = np.nan
-        states = [[r.choice(allowed) for _ in range(ploidy)] for _ in range(12)]
+        states = [[r.choice(allowed) for _ in range(ploidy)] for _ in range(12 if n <= 100 else 4)]
         dt = r.choice([np.int64, np.int32])
         lines, meta = [], []
         toks = call_tokens(reads, counts, haps, F, freqs)
@@ -310,6 +320,7 @@ def run(tier, replay=None):
                     chk.violation("the move distribution of the call sampler changes when its likelihood cache is in use",
                                   {"haplotypes": haps, "alleles": st, "position": k, "with_cache": probs.tolist(), "without": probs2.tolist()},
                                   "C02/options/cache-dependence")
+        lap(f"cached-kernels:{ploidy}x{n}")
 
     lap("cached-kernels")
     # ---------------- compound_step: result sorted, returned llk = llk of the final genotype; plain Python without a cache,
